@@ -226,6 +226,23 @@ PROPS = {
         trusted=["journalling datastore (batch commits atomic; a crash keeps an in-order prefix of the journal, and optionally only what a later Sync of a covering prefix on the same physical store made durable)", "synctest virtual time for the reset's drain ticker"],
         shards={"quick": 8, "thorough": 16},
     ),
+    "C17": dict(
+        pkg="./provider", test="TestVerifC17", model="C17", verdict="C17v", level="other", diff_is_failure=False,
+        accept=lambda m, o: m == "-" or all((" " + t + " ") in (" " + o + " ") for t in m.split(" ")),
+        rule="a case is a multi-cycle history on a real SweepingProvider (optionally behind the buffered wrapper; worker configurations "
+             "default/1/2/8; replication factor 2-4) in virtual time over a simulated swarm of 3-32 peers with a closest-peers router and a "
+             "recording sender: start (forced or not) / stop / provide-once, batches of such operations issued back to back, swarm growth "
+             "and shrinkage, outages with work issued meanwhile, restarts on the same datastore, and windows of one or two reprovide "
+             "intervals plus the allowed delay; compared: the keys the keystore holds after every line (reprovide-set model); monitored on "
+             "the sender's log: every kept key re-advertised to all its r nearest peers in every online window, provided keys advertised "
+             "at once, stopped and provide-once keys absent from later windows, payload = local peer + current address; non-trivial = "
+             "every case; distinct = case text",
+        trusted=["synctest virtual time; fake closest-peers router that answers with the true nearest peers of the current swarm; recording message sender"],
+        shards={"quick": 8, "thorough": 16},
+        explanation="partial: the cycle arithmetic and the buffered coalescing are Lean theorems; the end-to-end obligation (every kept key "
+                    "re-advertised to its then-nearest r peers once per interval + delay through splits, merges, outages and restarts) is "
+                    "monitored on generated histories, not proved",
+    ),
     "C08": dict(
         pkg=".", test="TestVerifC08", model="C08", verdict="C08v", level="proof", diff_is_failure=True, also=["C15"],
         accept=lambda m, o: m == "-" or m == "pseq=*" or (" " + m + " ") in (" " + o + " "),
